@@ -162,6 +162,11 @@ type c12cfg struct {
 	N, T    int
 	Fork    bool
 	Foreign bool
+	// Shape of the candidate configuration: "" = rotation (same size and threshold),
+	// "grow" = the genesis keypers plus two more with threshold T+1, "shrink" = the
+	// second genesis keyper alone with threshold 1 (needs N >= 2): the check-in quorum
+	// of the new configuration differs from that of the old one.
+	Shape string
 }
 
 func c12World(cf c12cfg) (*appx.World, appx.Genesis, []appx.Op) {
@@ -173,15 +178,28 @@ func c12World(cf c12cfg) (*appx.World, appx.Genesis, []appx.Op) {
 	}
 	// candidate 0: rotate the set (drop keyper 0, add the extra participant N)
 	rot := append(append([]int{}, members[1:]...), cf.N)
+	t0 := uint64(cf.T)
+	switch cf.Shape {
+	case "grow":
+		rot = append(append([]int{}, members...), cf.N, cf.N+1)
+		t0 = uint64(cf.T + 1)
+	case "shrink":
+		rot = []int{1}
+		t0 = 1
+	}
 	// candidate 1: rotate once more (drop the next keyper, add participant N+1)
 	rot2 := append(append([]int{}, rot[1:]...), cf.N+1)
 	w := &appx.World{U: u, Candidates: []appx.Candidate{
-		{Members: rot, Threshold: uint64(cf.T), IndexPlus: 1, Act: 5},
+		{Members: rot, Threshold: t0, IndexPlus: 1, Act: 5},
 		{Members: rot2, Threshold: uint64(cf.T), IndexPlus: 1, Act: 5},
 	}, SeenBlocks: []uint64{5}}
 	g := appx.Genesis{Members: members, Threshold: uint64(cf.T), ForkEnabled: cf.Fork}
 	var ops []appx.Op
-	for s := 0; s <= cf.N; s++ {
+	last := cf.N
+	if cf.Shape == "grow" {
+		last = cf.N + 1
+	}
+	for s := 0; s <= last; s++ {
 		ops = append(ops, op("checkin", s, 0, 0))
 		if cf.Fork {
 			ops = append(ops, op("checkin", s, 1, 0))
@@ -364,6 +382,11 @@ func c12() *report.Check {
 					for _, fork := range []bool{false, true} {
 						cfgs = append(cfgs, c12cfg{N: n, T: t, Fork: fork})
 					}
+					// a candidate whose size and threshold (hence check-in quorum) differ
+					cfgs = append(cfgs, c12cfg{N: n, T: t, Shape: "grow"})
+					if n >= 2 {
+						cfgs = append(cfgs, c12cfg{N: n, T: t, Shape: "shrink"})
+					}
 				}
 			}
 			for ci, cf := range cfgs {
@@ -421,7 +444,7 @@ func c12() *report.Check {
 				// first), nobody has reported a block or checked in. From here the search is
 				// over block reports and check-ins of all N+2 participants only: which
 				// configuration starts first, and whose quorum is met, is up to their order.
-				if !b.Stop && b.Capped == "" && cf.N >= 2 {
+				if !b.Stop && b.Capped == "" && cf.N >= 2 && cf.Shape == "" {
 					three := inits[0]
 					var pre []appx.Op
 					for s := 0; s < cf.T; s++ {
@@ -471,7 +494,7 @@ func c12() *report.Check {
 				if b.Capped != "" {
 					c.Stats.Cap(fmt.Sprintf("n=%d t=%d fork=%v: %s at depth %d", cf.N, cf.T, cf.Fork, b.Capped, b.DepthDone))
 				}
-				c.Stats.SetExtra(fmt.Sprintf("n%d_t%d_fork%v", cf.N, cf.T, cf.Fork), map[string]any{"states": b.States, "transitions": b.Transitions, "depth_completed": b.DepthDone, "frontier_not_expanded": b.FrontierCut})
+				c.Stats.SetExtra(fmt.Sprintf("n%d_t%d_fork%v%s", cf.N, cf.T, cf.Fork, cf.Shape), map[string]any{"states": b.States, "transitions": b.Transitions, "depth_completed": b.DepthDone, "frontier_not_expanded": b.FrontierCut})
 				if ci == 0 {
 					c.Stats.Sample(map[string]any{"config": cf, "alphabet": fmt.Sprint(alphabet), "depth": depth})
 				}
